@@ -211,4 +211,51 @@ def groupByMulti {α} (l : List α) (keys : List (α → PyVal)) : List (List Py
 /-- `unpack_group` of a flat group dict -/
 def unpackGroup {κ α} (d : List (κ × List α)) : List α := d.flatMap (·.2)
 
+/-! ### construction (`_verify_iterable`, `_verify_individual`, `_handle_type_specially`, extend / append / insert) -/
+
+/-- what a caller can put into an iterable handed to a container -/
+inductive Item where
+  | tract (t : TractObj)
+  | trs (d : TRS.TrsDict)
+  | str (s : Str)
+  | other                      -- any other Python object (None, int, list, …)
+  deriving Inhabited
+
+/-- `_verify_individual` + `_handle_type_specially` -/
+def verifyIndividual (isTRSList : Bool) : Item → Except PyErr Elem
+  | .tract t => if isTRSList then .ok (.trs (TRS.trsToDict (some t.trs.trs))) else .ok (.tract t)
+  | .trs d => if isTRSList then .ok (.trs d) else .error .typeError
+  | .str s => if isTRSList then .ok (.trs (TRS.trsToDict (some s))) else .error .typeError
+  | .other => .error .typeError
+
+/-- `_verify_iterable` on a non-str iterable of items -/
+def verifyIterable (isTRSList : Bool) : List Item → Except PyErr (List Elem)
+  | [] => .ok []
+  | x :: rest =>
+    match verifyIndividual isTRSList x with
+    | .error e => .error e
+    | .ok e =>
+      match verifyIterable isTRSList rest with
+      | .error e' => .error e'
+      | .ok es => .ok (e :: es)
+
+/-- `cls(iterable)` -/
+def construct (isTRSList : Bool) (items : List Item) : Except PyErr (List Elem) := verifyIterable isTRSList items
+
+/-- `self.extend(iterable)` / `self += iterable`: all-or-nothing -/
+def extend (isTRSList : Bool) (self : List Elem) (items : List Item) : Except PyErr (List Elem) :=
+  match verifyIterable isTRSList items with
+  | .error e => .error e
+  | .ok es => .ok (self ++ es)
+
+def append (isTRSList : Bool) (self : List Elem) (x : Item) : Except PyErr (List Elem) :=
+  match verifyIndividual isTRSList x with
+  | .error e => .error e
+  | .ok e => .ok (self ++ [e])
+
+def insert (isTRSList : Bool) (self : List Elem) (i : Nat) (x : Item) : Except PyErr (List Elem) :=
+  match verifyIndividual isTRSList x with
+  | .error e => .error e
+  | .ok e => .ok (self.take i ++ [e] ++ self.drop i)
+
 end PyTRS.Cont
